@@ -84,6 +84,21 @@ def rneBits (p : Nat) (x : Rat) : Rat :=
 
 def roundDt (x : Rat) : Rat := rneBits 24 (truncBits 53 x)
 
+/-- the odd part of `n` (`n = oddPart n * 2^k`), `0` for `0` -/
+def oddPart (n : Nat) : Nat :=
+  if h : n = 0 then 0 else if n % 2 = 0 then oddPart (n / 2) else n
+termination_by n
+decreasing_by omega
+
+def isPow2 (d : Nat) : Bool := oddPart d == 1
+
+/-- decidable representability: `x = ± m · 2^e` with `m < 2^p` (a binary floating-point number with `p` significant
+    bits and unbounded exponent; `p = 24`: float, `p = 53`: double) -/
+def reprBits (p : Nat) (x : Rat) : Bool := isPow2 x.den && decide (oddPart x.num.natAbs < 2 ^ p)
+
+/-- decidable representability of an index array in 32 bits -/
+def fits32 (a : Array Nat) : Bool := a.all (· < 2 ^ 32)
+
 /-! ### extension operations of the driver -/
 
 inductive XOp where
@@ -92,6 +107,7 @@ inductive XOp where
   | bperm (p q : Array Nat)
   | triDense
   | xclone (dDiff iDiff : Bool)
+  | dtw
 
 /-- `ok tgt src?` -/
 inductive ResX (α : Type) where
@@ -152,6 +168,11 @@ def stepX [Zero α] (round : α → α) (m : Mat α) : XOp → ResX α
   | .triDense =>
     match m with
     | .dense A => .ok (.dense A.transposeInplace) none
+    | _ => .bad
+  | .dtw =>
+    -- Q -> float -> double -> float -> Q: narrow, widen (exact: the conversion to double of a float), narrow again
+    match m with
+    | .csr _ | .dense _ | .banded _ => .ok (m.mapVal fun x => round (round x)) none
     | _ => .bad
   | .xclone dDiff iDiff =>
     -- cross-type clone chain X<Q,IT> -> X<DT2,IT2> -> X<Q,IT> (any mode; what is shared is `Heap.xclone`'s business):
